@@ -106,7 +106,7 @@ class Engine:
             create_wire=2, create_wires=1, add_wire=1, remove_wire=1, remove_wires_from=1, set_wires=1,
             create_child=5, add_child=2, remove_child=2, remove_children_from=1, set_children=1,
             set_reference=4, connect_pin=10, disconnect_pin=4, disconnect_pins_from=2, set_wire_pins=1,
-            top_instance=2, set_top_instance=1, rename=4, data_edit=3, bundle_attr=4, clone_small=1,
+            top_instance=2, set_top_instance=1, rename=4, data_edit=3, bundle_attr=4, clone_small=1, read_views=2,
         )
         if profile == "mirror":
             for k in ("create_port", "add_port", "remove_port", "remove_ports_from", "create_pin", "create_pins",
@@ -651,6 +651,22 @@ class Engine:
             return None
         xs, st = self._bulk(d.children, self.u.insts)
         return Op("Definition.remove_children_from", lambda: d.remove_children_from(as_arg(xs)), "remove_children_from(%d,%s)" % (len(xs), xs.form), st, d, (xs,))
+
+    def op_read_views(self):
+        """Not an edit: the read-only views are READ the way user code does - set operators on a definition's reference set, list
+        operations on the list views.  Nothing may change."""
+        d = self.pick([x for x in self.u.defs if len(x.references)] or self.u.defs)
+        if d is None:
+            return None
+        other = set(self.r.sample(self.u.insts, min(len(self.u.insts), self.r.randint(0, 4))))
+
+        def fn():
+            v = d.references
+            out = [v & other, v | other, v - other, v ^ other, other & v, other | v, other - v, len(v), sorted(map(id, v)), v == other, v != other]
+            for view in (d.children, d.ports, d.cables):
+                out += [list(view), view[:1], list(reversed(view)), len(view), view + [], view * 1, view.copy() if hasattr(view, "copy") else None]
+            return None
+        return Op("Definition.references(read)", fn, "set operators on references, list operations on views", "valid", d, ())
 
     def op_set_children(self):
         d = self.pick(self.u.defs)
